@@ -91,6 +91,13 @@ type LawEvent struct {
 	Query  Res         `json:"query"` // "?q" against u
 	Rel    []Res       `json:"rel"`   // scheme-less references against u
 	RelRef []proj.Text `json:"relref"`
+	// the same resolutions against a second instance of u whose SearchParams() has been read first (a read-only use
+	// of the base that allocates its parameter list): the laws must not depend on it
+	TBase  Res   `json:"tbase"`
+	TEmpty Res   `json:"tempty"`
+	THash  Res   `json:"thash"`
+	TQuery Res   `json:"tquery"`
+	TRel   []Res `json:"trel"`
 }
 
 var lawBases = []string{"http://u:p@h:8/a/b?q#f", "file:///C:/d/e", "x://h/a/b", "x:/a", "m:o", "ws://h2/"}
@@ -98,7 +105,8 @@ var relRefs = []string{"a", "/a", "//a", "..", "\\a", "./b?c", "", "?", "#", ";x
 
 func lawEvent(in proj.Text, bs []proj.Text) LawEvent {
 	s := in.ToGo()
-	e := LawEvent{K: "law", In: in, Bs: bs, Self: []Res{}, Rel: []Res{}, RelRef: []proj.Text{}}
+	e := LawEvent{K: "law", In: in, Bs: bs, Self: []Res{}, Rel: []Res{}, RelRef: []proj.Text{}, TRel: []Res{},
+		TBase: Res{VE: VEList{}}, TEmpty: Res{VE: VEList{}}, THash: Res{VE: VEList{}}, TQuery: Res{VE: VEList{}}}
 	if bs == nil {
 		e.Bs = []proj.Text{}
 	}
@@ -136,6 +144,31 @@ func lawEvent(in proj.Text, bs []proj.Text) LawEvent {
 		r := r
 		e.Rel = append(e.Rel, call(func() (*url.Url, error) { return u.Parse(r) }))
 		e.RelRef = append(e.RelRef, proj.FromGo(r))
+	}
+	var ut *url.Url
+	e.TBase = call(func() (*url.Url, error) {
+		var x *url.Url
+		var err error
+		if len(bs) == 0 {
+			x, err = url.Parse(s)
+		} else {
+			x, err = url.ParseRef(bs[0].ToGo(), s)
+		}
+		if err == nil && x != nil {
+			_ = x.SearchParams().Has("x")
+			_ = x.SearchParams().Get("a")
+			ut = x
+		}
+		return x, err
+	})
+	if ut != nil {
+		e.TEmpty = call(func() (*url.Url, error) { return ut.Parse("") })
+		e.THash = call(func() (*url.Url, error) { return ut.Parse("#f") })
+		e.TQuery = call(func() (*url.Url, error) { return ut.Parse("?q") })
+		for _, r := range relRefs {
+			r := r
+			e.TRel = append(e.TRel, call(func() (*url.Url, error) { return ut.Parse(r) }))
+		}
 	}
 	return e
 }
